@@ -10,6 +10,9 @@
  O4 NUMERIC-CELLS     (Int,Float)/(Float,Int) cells of the sort comparators are not the constant Equal (tolerated today).
  O5 RUNNING-SELECTION in selection loops of the executor (the TopK heap sift-down) the element compared against each candidate is fetched
                       through the running selection variable, not through the index it was initialised from.
+ O7 FORALL-KEYS       a planner predicate over the whole ORDER BY key list (fn(&[SortKey], ..) -> bool) answers `true` only after
+                      the loop over the keys is exhausted: an early `true` decides operator placement from a prefix of the keys,
+                      and the remaining keys are then evaluated against a row that no longer carries their columns.
 LIMIT/OFFSET windows and DISTINCT are NOT decided beyond that.
 """
 from model import CheckError, operand_place, place_fields
@@ -122,6 +125,7 @@ def run(ctx):
     ctx.ob("O3.SORT-KEY-RESOLVED", "SortExecutor::get_sort_value", not null_default, "an unresolved sort key is not replaced by NULL" if not null_default else
            "a sort key column that is not present in the row silently becomes NULL: all keys compare equal and ORDER BY has no effect "
            "(e.g. ORDER BY a column that is not in the select list)", g.loc())
+    forall_keys(ctx)
 
 
 def running_selection(ctx, rule, scope_pred):
@@ -190,3 +194,25 @@ def running_selection(ctx, rule, scope_pred):
            "called only from hash-join code (%d caller(s))" % len(users) if not bad and users else
            "the type-conflating join hash is used as a row identity outside the hash join (%s): DISTINCT drops rows whose values differ but "
            "hash alike (integers above 2^53, NULL vs FALSE)" % (bad[0].id if bad else "no caller found"), (bad[0] if bad else m.fn("database::query::helpers::hash_owned_value_normalized")).loc())
+
+
+def forall_keys(ctx):
+    from paths import exhausted_edges, const_value
+    m = ctx.m
+    n = 0
+    for f in sorted(m.fns.values(), key=lambda f: f.id):
+        if f.kind == "closure" or f.ret != "bool" or not any(t.startswith("&[sql::planner::logical::SortKey") for t in f.locals[1:f.nargs + 1]):
+            continue
+        loops = f.loops()
+        outer = [h for h, body in loops if not any(h in b2 and h != h2 for h2, b2 in loops)]
+        ex = [tgt for (bb, tgt), h in exhausted_edges(f).items() if h in outer]
+        if not ex:
+            continue
+        n += 1
+        trues = [(bb, s[3]) for bb, b in enumerate(f.blocks) for s in b["s"]
+                 if s[0] == "=" and s[1][0] == 0 and not s[1][1] and s[2][0] == "use" and const_value(f, s[2][1]) == 1]
+        bad = [(bb, l) for bb, l in trues if not any(f.dominates(t, bb) or t == bb for t in ex)]
+        ctx.ob("O7.FORALL-KEYS", f.id.rsplit("::", 1)[-1], bool(trues) and not bad, "`true` is produced only after the key loop is exhausted" if trues and not bad else
+               ("no `true` result found" if not trues else "the predicate returns true at L%s before the loop over the ORDER BY keys is exhausted: "
+                "the remaining sort keys are not examined" % bad[0][1]), "%s:%s" % (f.file, bad[0][1] if bad else f.line))
+    ctx.floor("O7.key_list_predicates", n, 1)
